@@ -716,7 +716,7 @@ func resolverE2E(r *rng, n int, certDir string) error {
 	go func() { _ = p.ListenAndServe(ctx) }()
 	time.Sleep(150 * time.Millisecond)
 	bases := []string{"www.example.com", "mail.example.com", "a.b.c.example.org", "router.lan.example", "x.test", "cdn.example.net",
-		"api.service.example", "time.example.com", "w3.example.com", "db.internal.example", "long-label-name-for-testing.example.com", "q.example"}
+		"api.service.example", "time.example.com", "w3.example.com", "w3|example.com", "w3.example|com", "db.internal.example", "long-label-name-for-testing.example.com", "q.example"}
 	type cq struct {
 		proto string
 		q     []byte
